@@ -145,13 +145,19 @@ def _stream_worker(a):
             mx = rng.choice([1, 2, 3, 7, 16, 100, 1000])
             if ref_r.hang:
                 break
-            out, r = daemon.run_batch(b, conf, data, leaks=True, timeout=WD, env={"IAUTHD_VERIF_CHUNK": "%d:%d" % (rng.randrange(1 << 30), mx)})
+            env = {"IAUTHD_VERIF_CHUNK": "%d:%d" % (rng.randrange(1 << 30), mx)}
+            faulty = a.get("shim") and rep % 3 == 2
+            if faulty:
+                # transient EINTR / EAGAIN on 30-60 % of the reads of fd 0 (injected by an LD_PRELOAD shim below the sanitizer's interceptors)
+                env.update({"LD_PRELOAD": a["shim"], "VERIF_READFAULT": "%d:%d" % (rng.randrange(1 << 30), rng.choice([30, 60]))})
+                mx = -mx
+            out, r = daemon.run_batch(b, conf, data, leaks=True, timeout=WD, env=env)
             diff = None
             out = comparable(out)
             if r.clean() and ref_r.clean() and out != ref_out:
                 k = next((i for i in range(min(len(out), len(ref_out))) if out[i] != ref_out[i]), min(len(out), len(ref_out)))
                 diff = "stdout differs at line %d with reads of at most %d bytes: %r vs %r" % (k, mx, out[k:k + 2], ref_out[k:k + 2])
-            results.append(("chunk<=%d" % mx, data, r, diff))
+            results.append((("chunk<=%d" % mx) if mx > 0 else ("chunk<=%d+readfaults" % -mx), data, r, diff))
     elif kind == "timer":
         # real request timers (1 s): the stream stops in the middle for 1.6 s with stdin open, so the timers of every request that is
         # pending - complete or not, answered NO / OK / not at all, with or without its D - expire; then the rest follows
@@ -238,9 +244,16 @@ def run(chk, tier, scale=1.0):
     jobs = []
     seedbase = chk.seed * 100003
 
+    import build as buildmod
+    import subprocess
+    shim = os.path.join(b["out"], "readfault.so")
+    subprocess.run(["gcc", "-shared", "-fPIC", "-O1", "-o", shim, os.path.join(vcommon.VERIF, "harness", "readfault.c"), "-ldl"], check=True)
+    san = [subprocess.run(["gcc", "-print-file-name=" + n], stdout=subprocess.PIPE, text=True).stdout.strip() for n in ("libasan.so", "libubsan.so")]
+    preload = " ".join(san + [shim])
+
     def add(kind, n, reps):
         for i in range(n):
-            jobs.append(dict(build=b, seed=seedbase + len(jobs), kind=kind, reps=reps))
+            jobs.append(dict(build=b, seed=seedbase + len(jobs), kind=kind, reps=reps, shim=preload))
     add("hostile", int((160 if q else 4000) * scale), 5)
     add("prefix", int((8 if q else 10) * scale) or 1, 60 if q else 10 ** 9)
     add("chunk", int((40 if q else 500) * scale), 6 if q else 20)
@@ -256,6 +269,8 @@ def run(chk, tier, scale=1.0):
                 sampled.add(kind)
                 chk.sample({"kind": kind, "variant": p["tag"], "bytes": p["len"], "input_head": p["head"]}, limit=4)
             chk.count("runs_" + kind)
+            if "readfaults" in p["tag"]:
+                chk.count("runs_with_injected_read_errors")
             chk.count("input_bytes", p["len"])
             if p["clean"]:
                 chk.count("clean_exits")
@@ -288,7 +303,7 @@ def run(chk, tier, scale=1.0):
                 "command without its argument), 0..40 arguments, empty / whitespace / colon-only lines, CR LF mixtures, NUL and high bytes, 600 B..70 KB lines, ids at and "
                 "beyond the limits of int and long, every command with id -1 and with live ids, replies with every malformed tag, random bytes; (2) peer death: %s prefixes of "
                 "streams; (3) the same stream under read() segmentations of at most 1,2,3,7,16,100,1000 bytes chosen by the guarded chunk hook must give identical stdout; "
-                "(3b) streams interrupted for 1.6 s under a 1 s request timeout so that the real timers of pending, refused and abandoned requests expire; (4) a good stream with junk lines (unknown ids, unknown command words, malformed replies) mixed in must give identical stdout; oracle for all: exit 0 at end "
+                "every third segmentation run additionally has 30-60 %% of the read()/readv() calls on fd 0 fail with EINTR / EAGAIN (LD_PRELOAD shim); (3b) streams interrupted for 1.6 s under a 1 s request timeout so that the real timers of pending, refused and abandoned requests expire; (4) a good stream with junk lines (unknown ids, unknown command words, malformed replies) mixed in must give identical stdout; oracle for all: exit 0 at end "
                 "of input, no ASan / UBSan / LeakSanitizer report, no hang; distinct = hash of input; non-trivial = non-empty input" % ("60 sampled per stream" if q else "all"))
     chk.require("runs_hostile", 500 * min(1.0, scale))
     chk.require("runs_prefix", 200 * min(1.0, scale))
